@@ -4,6 +4,8 @@ go 1.18
 
 require (
 	github.com/fullstorydev/grpchan v0.0.0
+	github.com/golang/protobuf v1.5.4
+	github.com/jhump/protoreflect v1.15.6
 	google.golang.org/genproto/googleapis/rpc v0.0.0-20240318140521-94a12d6c2237
 	google.golang.org/grpc v1.57.1
 	google.golang.org/protobuf v1.33.0
@@ -11,8 +13,6 @@ require (
 
 require (
 	github.com/bufbuild/protocompile v0.9.0 // indirect
-	github.com/golang/protobuf v1.5.4 // indirect
-	github.com/jhump/protoreflect v1.15.6 // indirect
 	golang.org/x/net v0.23.0 // indirect
 	golang.org/x/sys v0.18.0 // indirect
 	golang.org/x/text v0.14.0 // indirect
